@@ -426,6 +426,26 @@ func TestC15(t *testing.T) {
 			}
 		}
 	}, propC15)
+	// JSON documents as other producers write them: insignificant white space (space, tab, LF, CR) before, after and
+	// inside the document; characters that are not JSON white space make the document undecodable
+	hh.Enumerate(h, "dispatch-product-json-whitespace", func(yield func(c15Case)) {
+		pads := []string{" ", "\t", "\n", "\r", "\r\n", "\n\r\t ", "\r\r", "\ufeff", "\v", "\f", "\u00a0", "\x00"}
+		docs := []string{c15Bodies[0], `{}`, `{"name":null,"tags":[]}`, `[1,2]`, `null`, `{"name":"J-na`, ``}
+		for _, m := range c15Methods {
+			for _, ct := range []string{"", "application/json", "application/json; charset=utf-8"} {
+				for _, d := range docs {
+					for _, pad := range pads {
+						yield(c15Case{Method: m, CType: ct, Body: pad + d})
+						yield(c15Case{Method: m, CType: ct, Body: d + pad})
+						yield(c15Case{Method: m, CType: ct, Body: pad + d + pad, Query: "name=Q-name&tags%5B%5D=Q1"})
+						if len(d) > 2 {
+							yield(c15Case{Method: m, CType: ct, Body: d[:1] + pad + d[1:len(d)-1] + pad + d[len(d)-1:]})
+						}
+					}
+				}
+			}
+		}
+	}, propC15)
 	hh.Enumerate(h, "dispatch-product-no-fields", func(yield func(c15Case)) {
 		for _, m := range c15Methods {
 			for _, ct := range []string{"", "application/json", "application/x-www-form-urlencoded", "text/plain"} {
@@ -450,7 +470,7 @@ func TestC15(t *testing.T) {
 		}
 	}, propC15)
 	frag := []string{"name", "tags%5B%5D", "tags[]", "opt", "list", "=", "&", "Q1", "B2", "%zz", "%20", "+", ";", "x"}
-	jfrag := []string{"{", "}", `"name"`, `"tags"`, ":", ",", `"J"`, "[", "]", "null", "1", " ", `"opt"`, `"list"`}
+	jfrag := []string{"{", "}", `"name"`, `"tags"`, ":", ",", `"J"`, "[", "]", "null", "1", " ", `"opt"`, `"list"`, "\r\n", "\t", "\n", "\r"}
 	hh.Sub(h, "random-requests", h.N(15000, 100000), func(rt *rapid.T) c15Case {
 		c := c15Case{Method: rapid.SampledFrom(c15Methods).Draw(rt, "m"), CType: rapid.SampledFrom(c15CTypes).Draw(rt, "ct"), Ptr: rapid.IntRange(0, 3).Draw(rt, "ptr") == 0}
 		if c.Ptr {
